@@ -76,6 +76,34 @@ pub fn parse_sync(bytes: &[u8], end: usize, parts: bool) -> (J, bool) {
     }
 }
 
+/// well-formed messages with collections nested 3..=32 deep (beyond the model-checking bound),
+/// several members per level, sets of collections, multi-valued members
+pub fn deep_messages(seed: u64) -> Vec<AMsg> {
+    let mut out = vec![];
+    let mut r = Rng::new(seed ^ 0xdee9);
+    for (k, d) in [3usize, 4, 5, 8, 13, 16, 24, 31, 32].iter().enumerate() {
+        for shape in 0..3usize {
+            let mut v = AV::Set(vec![gen_av("I", &mut r), gen_av("K", &mut r)]);
+            for lvl in 0..*d {
+                let mut ms = vec![("inner".to_string(), v)];
+                match (shape + lvl) % 3 {
+                    0 => ms.push((format!("s{}", lvl), gen_av("K", &mut r))),
+                    1 => ms.push(("multi".to_string(), AV::Set(vec![gen_av("I", &mut r), gen_av("K", &mut r), gen_av("I", &mut r)]))),
+                    _ => {}
+                }
+                let c = AV::Coll(ms);
+                v = if shape == 2 && lvl % 5 == 4 { AV::Set(vec![c, AV::Coll(vec![("z".to_string(), AV::Int(lvl as i32))])]) } else { c };
+            }
+            let groups = vec![
+                AGroup { tag: 1, attrs: vec![("attributes-charset".into(), AV::Str("Charset", "utf-8".into()))] },
+                AGroup { tag: [2u8, 4, 5][(k + shape) % 3], attrs: vec![("media-col".into(), v), ("after".into(), AV::Int(*d as i32))] },
+            ];
+            out.push(AMsg { ver: 0x0200, code: 0x000b, id: 7 + k as u32, groups });
+        }
+    }
+    out
+}
+
 pub fn run(a: &Args) {
     let prop = a.req("prop").to_string();
     let out = a.req("out").to_string();
@@ -250,6 +278,56 @@ pub fn run(a: &Args) {
                     std::process::exit(2);
                 }
             }
+        }
+    }
+    if a.get("deep").is_some() {
+        for (di, msg) in deep_messages(seed).iter().enumerate() {
+            let cid = format!("{}-deep-{}", prop, di);
+            let side = json!({"case": cid, "msg": format!("{:?}", msg).chars().take(3000).collect::<String>()});
+            match prop.as_str() {
+                "C04" => {
+                    let toks = amsg_tokens(msg);
+                    let mut bytes = encode(msg.ver, msg.code, msg.id, &toks);
+                    let end = bytes.len();
+                    bytes.extend_from_slice(&payload_variant(di));
+                    let (o, pay_ok) = parse_sync(&bytes, end, di % 2 == 1);
+                    sink.emit(&json!({"ev": "parse", "case": cid, "hdr": hdr_json(Some((msg.ver, msg.code, msg.id))), "toks": toks_json(&toks), "out": o, "pay_ok": pay_ok}), &side);
+                }
+                "C01" => {
+                    let m2 = msg.clone();
+                    let built = catch_unwind(AssertUnwindSafe(move || m2.to_ipp().to_bytes().to_vec()));
+                    let (o, pay_ok) = match built {
+                        Ok(bytes) => parse_sync(&bytes, bytes.len(), false),
+                        Err(p) => (json!({"ok": false, "err": "PANIC", "what": panic_text(p)}), true),
+                    };
+                    sink.emit(&json!({"ev": "rt", "case": cid, "msg": msg.json(), "out": o, "pay_ok": pay_ok}), &side);
+                }
+                "C03" => {
+                    let m2 = msg.clone();
+                    if let Ok(bytes) = catch_unwind(AssertUnwindSafe(move || m2.to_ipp().to_bytes().to_vec())) {
+                        let tz = tokenize(&bytes);
+                        let rest = tz.end.map(|e| bytes.len() - e).unwrap_or(0);
+                        sink.emit(&json!({"ev": "enc", "case": cid, "msg": msg.json(), "hdr": hdr_json(tz.hdr), "toks": toks_json(&tz.toks), "term": tz.term, "rest": rest}), &side);
+                    }
+                }
+                "C20" => {
+                    let m2 = msg.clone();
+                    let r = catch_unwind(AssertUnwindSafe(move || {
+                        let req = m2.to_ipp();
+                        let t = serde_json::to_string(&req).map_err(|e| e.to_string())?;
+                        let back: IppRequestResponse = serde_json::from_str(&t).map_err(|e| e.to_string())?;
+                        Ok::<(J, J), String>((msg_json(&req), msg_json(&back)))
+                    }));
+                    let ev = match r {
+                        Ok(Ok((orig, back))) => json!({"ev": "serde", "case": cid, "what": "msg", "ok": true, "msg": orig, "back": back, "paylen": 0}),
+                        Ok(Err(e)) => json!({"ev": "serde", "case": cid, "what": "msg", "ok": false, "msg": msg.json(), "back": {}, "paylen": 0, "error": e}),
+                        Err(p) => json!({"ev": "serde", "case": cid, "what": "msg", "ok": false, "msg": msg.json(), "back": {}, "paylen": 0, "error": panic_text(p)}),
+                    };
+                    sink.emit(&ev, &side);
+                }
+                _ => {}
+            }
+            evals += 1;
         }
     }
     let events = sink.events;
